@@ -11,7 +11,29 @@ def _lvl(what):
             "enumerates every model behaviour up to the bound as a schedule, replays schedules plus long seeded random walks on the REAL ElysApp through "
             "FinalizeBlock/Commit with signed transactions, and validates every observed step of the recorded traces against the same specification with TLC. " + what)
 
+_LAT = ("TLC enumerates the class lattice of spec/mc/MC_pricing.tla exhaustively (113 832 classes: reserve magnitude 1e0..1e24 x reserve ratio x weight pair x fee x trade size x direction x pool kind x external-liquidity ratio x oracle deviation x share supply); "
+        "the harness instantiates each class (quick: a seeded sample; thorough: all classes, 3 draws) with concrete values and calls the REAL pool functions with the real oracle/accounted-pool keepers; "
+        "TLC evaluates the rational bound of spec/elys/Pricing.tla (cross-multiplied integer-power inequalities in arbitrary precision, exactly the property's allowance) on every call. ")
+
 TEXTS = {
+    "C03": {"technique": "TLC-enumerated class lattice + TLA+ rational bounds evaluated on real pool-function calls and on real keeper flows",
+            "level": _LAT + "In addition every step of real ABCI traces is checked for 'weighted product of reserves never decreases' on constant-product pools (fee skims included), which makes round trips and split trades unprofitable by induction. This is specification-as-oracle checking over an exhaustively enumerated class lattice with sampled concretisations, not a proof over all integers.",
+            "note": _TB + " Known finding C03-dec-rounding-large-reserves (18-digit Dec rounding beyond one base unit for reserves >= 1e17) is matched by an exact bounded signature."},
+    "C05": {"technique": "TLC-enumerated class lattice + TLA+ rational bounds on real Pool.JoinPool/ExitPool calls, plus join/exit step contracts on ABCI traces",
+            "level": _LAT + "C05 bounds: all-asset join shares <= pro-rata of every asset joined; single-asset join (S+sh)/S <= ((r+a)/r)^(w/W); oracle-pool joins by value at oracle prices; exits <= pro-rata claim (by value for single-sided oracle exits); an exit never burns all shares nor takes a whole reserve; book-keeping of Pool after exit. Real MsgJoinPool/MsgExitPool in ABCI traces are checked for 'never empties the pool' and response consistency.",
+            "note": _TB},
+    "C08": {"technique": "TLA+ state invariants over leveraged-LP positions + close step contract, TLC trace validation",
+            "level": _lvl("C08 is the invariant pool.LeveragedLpAmount = sum of position LP amounts, position LP = shares committed at the position address, open counter = stored positions, nothing left committed at the address of a removed position; checked after every begin-block sweep, transaction and end-block of histories with opens, consolidations, partial/full closes, bot MsgClosePositions and price moves."),
+            "note": _TB},
+    "C09": {"technique": "TLA+ state invariants over perpetual pools and MTPs, TLC trace validation",
+            "level": _lvl("C09 is the invariant that pool custody/liabilities/collateral per side and asset equal the sums over stored MTPs, the open counter equals the stored MTPs, and the amm reserve covers total custody per asset."),
+            "note": _TB},
+    "C10": {"technique": "TLA+ step contracts on third-party closes and opens, real health function probed per state, TLC trace validation",
+            "level": _lvl("C10 is a step contract on bot MsgClosePositions (leveragelp, perpetual) and the begin-block sweep: every position altered by a third party must have been closable on the pre-state (probed real health within a 5 % band of the safety factor, or stop-loss / take-profit trigger reached - exact for perpetuals), untouched owners keep their funds, and every successful open leaves stored and probed health above the safety factor."),
+            "note": _TB + " The health used for the closability judgement is the implementation's own health function evaluated on the pre-state (independent of the liquidation code path but not of the pricing code)."},
+    "C11": {"technique": "TLA+ state invariant relating accounted pool, amm reserves and perpetual aggregates, TLC trace validation",
+            "level": _lvl("C11 is the invariant accounted total = reserve + liabilities - custody and non-amm part = liabilities - custody for every asset of every perpetual-enabled pool (default formula, EnableTakeProfitCustodyLiabilities = false), reported at the step that breaks it."),
+            "note": _TB},
     "C01": {"technique": "TLA+ state invariant + TLC trace validation of real ABCI executions",
             "level": _lvl("C01 is the invariant reserve + donated = bank balance at the pool address, pool holds nothing else, DenomLiquidity = sum of reserves, evaluated after begin-block, every transaction and end-block."),
             "note": _TB},
